@@ -603,7 +603,8 @@ class C09(Base):
                                 attrs.append(("bare", c[1], None, "", "", ""))
                             else:
                                 q = "'" if c[0] == "sq" else '"'
-                                attrs.append((c[0], c[1], c[2], eq[:-1] if eq != "=" else "", eq[1:] if eq != "=" else "", q))
+                                pre, post = eq.split("=")
+                                attrs.append((c[0], c[1], c[2], pre, post, q))
                         t = gen.Tag("tl", attrs, list(ss))
                         yield self.mk(t.body(), "<", ">", t.expected(), "small-exhaustive")
 
